@@ -24,8 +24,6 @@ var c09Masks = []string{"@1", "@2", "@3"}
 
 // For every masking suffix the iterator without the filter comes first: a failure on the
 // with-filter iterator therefore means "the filter changed the result".
-var c09Iters = c09IterList(false)
-
 func c09IterList(bounded bool) []IterCfg {
 	var out []IterCfg
 	for _, s := range c09Masks {
@@ -34,7 +32,7 @@ func c09IterList(bounded bool) []IterCfg {
 		}
 	}
 	if bounded {
-		for _, s := range c09Masks {
+		for _, s := range c09Masks[1:] { // masking with @1 never hides anything: unbounded only
 			for _, f := range []bool{false, true} {
 				out = append(out, IterCfg{Mask: s, Filter: f, Lower: "a@2", Upper: "b@2"})
 			}
@@ -104,9 +102,15 @@ func (l layout) cfg() hx.Config {
 	return hx.Config{Name: "blocksize-default", DisableWAL: true, MemTableSize: 32 << 10}
 }
 
-// c09Layouts enumerates the layout space, fewest points first. perPoint=false restricts the point
-// placement to "all flushed" / "all in the memtable".
-func c09Layouts(perPoint bool) []layout {
+// c09Layouts enumerates the layout space, fewest points first. Quick tier: at most 3 points, point
+// placement "all flushed" / "all in the memtable", one table per flushed group. Thorough tier: at
+// most 4 points, every point flushed or not individually, and for the uniform placements also the
+// variant with everything flushed into ONE table.
+func c09Layouts(thorough bool) []layout {
+	perPoint, maxPts := thorough, 3
+	if thorough {
+		maxPts = 4
+	}
 	var rkSets [][]int
 	for i := range c09RangeKeys {
 		rkSets = append(rkSets, []int{i})
@@ -117,7 +121,7 @@ func c09Layouts(perPoint bool) []layout {
 		}
 	}
 	var out []layout
-	for np := 0; np <= 4; np++ {
+	for np := 0; np <= maxPts; np++ {
 		for pts := uint32(0); pts < 1<<uint(len(c09Points)); pts++ {
 			if bits.OnesCount32(pts) != np {
 				continue
@@ -139,7 +143,7 @@ func c09Layouts(perPoint bool) []layout {
 			}
 			for _, fl := range places {
 				bsOpts := []bool{true}
-				if bits.OnesCount32(fl) >= 2 {
+				if bits.OnesCount32(fl) >= 2 && (thorough || bits.OnesCount32(fl) == 2) {
 					bsOpts = []bool{true, false} // several points in one block only matter with >= 2 flushed points
 				}
 				for _, bs1 := range bsOpts {
@@ -157,7 +161,7 @@ func c09Layouts(perPoint bool) []layout {
 								}
 							}
 							out = append(out, layout{pts: pts, ptFlushed: fl, bs1: bs1, rks: rs, rkFlushed: rf})
-							if groups >= 2 {
+							if groups >= 2 && thorough && (fl == pts || fl == 0) {
 								out = append(out, layout{pts: pts, ptFlushed: fl, bs1: bs1, rks: rs, rkFlushed: rf, oneTable: true})
 							}
 						}
@@ -179,24 +183,16 @@ func runC09(c *vlib.Ctx) {
 		l := layouts[i]
 		cs := Case{Prop: "C09", Cfg: l.cfg(), Collector: true, Bounds: c09ModelBounds, Hist: l.hist()}
 		var st driveStats
-		m, _, f := runHistory(c, cs, iters, scr, false, false, &st)
+		m, _, f := runCase(c, cs, iters, scr, &st, classifier("C09"))
 		c.Eval(1)
 		c.Trans(st.calls)
 		tot.add(st)
 		if f != nil {
-			if f.ic != nil && f.ic.Filter {
-				f.class = "with-filter-" + f.class
-				f.desc = "the iterator without RangeKeyMasking.Filter agreed with the model on this layout and masking suffix; with the filter: " + f.desc
-			}
-			report(c, cs, f, func() *failure {
-				var st2 driveStats
-				_, _, f2 := runHistory(c, cs, iters, scr, false, false, &st2)
-				if f2 != nil && f2.ic != nil && f2.ic.Filter {
-					f2.class = "with-filter-" + f2.class
-				}
-				return f2
-			})
+			violation(c, cs, f)
 			c.Outcome("violation:" + f.class)
+			return
+		}
+		if m == nil {
 			return
 		}
 		// which points does which masking suffix hide
